@@ -390,6 +390,9 @@ func (v *vc) intrinsic(fr *frame, st *state, instr ssa.Instruction, name string,
 		return true
 	case "(*sync.WaitGroup).Add", "(*sync.WaitGroup).Done", "(*sync.WaitGroup).Wait":
 		trust()
+		if strings.HasSuffix(name, ".Wait") && instr != nil {
+			v.waitWithoutLocks(fr, st, v.site(instr))
+		}
 		return true
 	case "sync/atomic.AddInt64", "sync/atomic.AddUint64", "sync/atomic.AddInt32", "sync/atomic.AddUint32":
 		trust()
